@@ -47,6 +47,15 @@ type FuncContract struct {
 	Line     int
 	Trust    string // assumption id for assumed contracts
 	CallNames []CallName
+	CallAsserts []CallAssert
+}
+
+// CallAssert: an assertion checked in the state just before the k-th call to
+// a callee (old() = entry state of the function).
+type CallAssert struct {
+	Ordinal int
+	Callee  string
+	C       *Clause
 }
 
 // CallName binds the result of the k-th call (in block order) whose callee
@@ -210,6 +219,19 @@ func (cs *Contracts) loadFile(file, pkgPath, pkgName string) error {
 			cur.Trust = rest
 		case "call":
 			f := strings.Fields(rest)
+			if len(f) >= 4 && f[2] == "assert" {
+				k, err := strconv.Atoi(f[0])
+				if err != nil {
+					return perr(err)
+				}
+				body := strings.TrimSpace(rest[strings.Index(rest, " assert ")+8:])
+				c, err := mk("assert", body)
+				if err != nil {
+					return err
+				}
+				cur.CallAsserts = append(cur.CallAsserts, CallAssert{k, f[1], c})
+				break
+			}
 			if len(f) != 4 || f[2] != "as" {
 				return perr(fmt.Errorf("call clause: call <ordinal> <callee> as <name>"))
 			}
